@@ -65,6 +65,13 @@ func buildC11Table(rng *gen.RNG) []c11Op {
 		enc := ref.Base32Encode(key)
 		secrets = append(secrets, sec{key, []string{enc, gen.Spell(rng, enc, 5), gen.Spell(rng, enc, 13+i)}})
 	}
+	// two more keys that share their first 64 / 128 bytes (one HMAC block of SHA-1/SHA-256 / SHA-512) with the 200-byte
+	// key above and differ only behind it: whatever is remembered about "the key of the last call" from a prefix of it
+	for _, n := range []int{64, 128} {
+		key := append(append([]byte{}, secrets[8].key[:n]...), rng.Bytes(200-n)...)
+		enc := ref.Base32Encode(key)
+		secrets = append(secrets, sec{key, []string{enc, gen.Spell(rng, enc, 5), gen.Spell(rng, enc, 7)}})
+	}
 	params := []*otp.Param{nil, {Digits: 6, Algorithm: otp.SHA1, Period: 30, Skew: 1}, {Digits: 8, Algorithm: otp.SHA256, Period: 60, Skew: 2}, {Digits: 10, Algorithm: otp.SHA512, Period: 0, Skew: 0}, {Digits: 9, Algorithm: otp.SHA1, Period: 1, Skew: 10}}
 	pm := func(p *otp.Param, hotp bool) (int, int, uint64, uint64) {
 		if p == nil {
